@@ -419,6 +419,8 @@ func genC11jsonPair(g *gen, seed int64) *Program {
 			ret.Size = 150 * p.Cfg.SendBuf
 		}
 		r.Handler = []Op{{K: "decode"}, {K: "return", Msg: ret}}
+		// a handler written against dynamic messages (no generated code)
+		r.DynH = g.p(0.3)
 		if g.p(0.12) {
 			// a handler that returns neither a response nor an error
 			r.Handler = []Op{{K: "decode"}, {K: "return", N: 1 + g.pick(2)}}
@@ -472,6 +474,11 @@ func genC11(g *gen, seed int64) *Program {
 		}
 		if g.p(0.15) {
 			rq.Hdrs = append(rq.Hdrs, KV{K: "GRPC-Timeout", V: RawStr([]string{"5S", "x", "", "99999999H", "-1S", "1"}[g.pick(6)])})
+		}
+		if g.p(0.12) {
+			// the client holds the body back until the server says "100 Continue"
+			// or answers (it gives up waiting after an hour of virtual time)
+			rq.Hdrs = append(rq.Hdrs, KV{K: "Expect", V: "100-continue"})
 		}
 		// body
 		msg := g.msg()
@@ -703,6 +710,17 @@ func oracleC11(s *Sim) {
 		}
 		if valid && entered == 0 && !ambiguousCT {
 			v.fail("C11", "valid-request-rejected", "POST %s content-type %q: the handler did not run; HTTP status %d", rq.Path, ct, st)
+		}
+		expects := false
+		for _, kv := range rq.Hdrs {
+			if kv.K == "Expect" {
+				expects = true
+			}
+		}
+		if expects && entered == 0 && raw.RT-raw.T >= int64(time.Hour) {
+			// the client waited for "100 Continue" or an answer and got neither
+			// until it gave up (an hour later) and sent the body after all
+			v.fail("C11", fmt.Sprintf("refusal-withheld-until-body-sent|%d", st), "%s %s with Expect: 100-continue: the request was refused (%d), but the answer only came once the client had given up waiting and sent its body anyway (%s later)", rq.Method, rq.Path, st, time.Duration(raw.RT-raw.T))
 		}
 		if !valid && !ambiguousCT {
 			allowed := map[int]bool{}
